@@ -33,6 +33,8 @@ type detReader struct {
 	cur     string
 	streams map[string]*ctrStream
 	mode    int // 0 per-party seeded streams, 1 constant bytes, 2 repeating block
+	// alias: stream label -> name used to derive the stream key (two labels with the same alias produce equal bytes)
+	alias map[string]string
 }
 
 type ctrStream struct {
@@ -68,7 +70,11 @@ func (d *detReader) Read(p []byte) (int, error) {
 	}
 	st := d.streams[d.cur]
 	if st == nil {
-		st = &ctrStream{key: sha256.Sum256([]byte(fmt.Sprintf("%d/%s", d.seed, d.cur)))}
+		name := d.cur
+		if a, ok := d.alias[d.cur]; ok {
+			name = a
+		}
+		st = &ctrStream{key: sha256.Sum256([]byte(fmt.Sprintf("%d/%s", d.seed, name)))}
 		d.streams[d.cur] = st
 	}
 	if d.mode == 2 {
@@ -82,7 +88,7 @@ func (d *detReader) Read(p []byte) (int, error) {
 var origRandReader io.Reader = crand.Reader
 
 func installDetReader(seed int64, mode int) *detReader {
-	d := &detReader{seed: seed, streams: map[string]*ctrStream{}, mode: mode}
+	d := &detReader{seed: seed, streams: map[string]*ctrStream{}, mode: mode, alias: map[string]string{}}
 	crand.Reader = d
 	return d
 }
@@ -120,6 +126,7 @@ type Obs struct {
 }
 
 type Node struct {
+	Label  party.ID // key in Sim.Nodes (differs from ID only for the second instance of a two-faced party)
 	ID     party.ID
 	Idx    int
 	H      protocol.Handler
@@ -144,6 +151,25 @@ type Sim struct {
 	AcceptTimeout time.Duration
 	// OnEmit lets a scenario rewrite / duplicate / drop outgoing envelopes (cheating parties)
 	OnEmit func(from party.ID, e *Env) []*Env
+	// Route, if set, decides whether messages emitted by node `from` reach node `to` (two-faced parties)
+	Route func(from, to *Node) bool
+	sealed bool
+	stash  []stashed
+}
+
+type stashed struct {
+	n    *Node
+	msgs []*protocol.Message
+}
+
+// Seal is called once all nodes have been added: messages emitted at construction are expanded to envelopes now.
+func (s *Sim) Seal() {
+	s.sealed = true
+	st := s.stash
+	s.stash = nil
+	for _, x := range st {
+		s.enqueue(x.n, x.msgs)
+	}
 }
 
 func NewSim(ids []party.ID, rng *rand.Rand, det *detReader) *Sim {
@@ -204,10 +230,15 @@ func (s *Sim) outSx(m *protocol.Message) sx.V {
 
 // AddMulti creates a MultiHandler for id.
 func (s *Sim) AddMulti(id party.ID, start protocol.StartFunc, sessionID []byte) *Node {
-	n := &Node{ID: id, Idx: s.idx(id)}
-	s.Nodes[id] = n
+	return s.AddMultiAs(id, id, start, sessionID)
+}
+
+// AddMultiAs creates a MultiHandler for party id under the node label `label`.
+func (s *Sim) AddMultiAs(label, id party.ID, start protocol.StartFunc, sessionID []byte) *Node {
+	n := &Node{Label: label, ID: id, Idx: s.idx(id)}
+	s.Nodes[label] = n
 	if s.det != nil {
-		s.det.setParty(string(id))
+		s.det.setParty(string(label))
 	}
 	var pan string
 	func() {
@@ -235,7 +266,7 @@ func (s *Sim) AddMulti(id party.ID, start protocol.StartFunc, sessionID []byte) 
 }
 
 func (s *Sim) AddTwoParty(id party.ID, start protocol.StartFunc, sessionID []byte, leader bool) *Node {
-	n := &Node{ID: id, Idx: s.idx(id)}
+	n := &Node{Label: id, ID: id, Idx: s.idx(id)}
 	s.Nodes[id] = n
 	if s.det != nil {
 		s.det.setParty(string(id))
@@ -387,17 +418,30 @@ func (s *Sim) observe(n *Node, msgs []*protocol.Message, pan string, extra int, 
 	return o
 }
 
-// enqueue expands emitted messages into one envelope per recipient.
+// enqueue expands emitted messages into one envelope per recipient node.
 func (s *Sim) enqueue(n *Node, msgs []*protocol.Message) {
+	if !s.sealed {
+		s.stash = append(s.stash, stashed{n, msgs})
+		return
+	}
+	labels := make([]string, 0, len(s.Nodes))
+	for l := range s.Nodes {
+		labels = append(labels, string(l))
+	}
+	sort.Strings(labels)
 	for _, m := range msgs {
-		for _, id := range s.IDs {
-			if id == n.ID {
+		for _, l := range labels {
+			to := s.Nodes[party.ID(l)]
+			if to.ID == n.ID {
 				continue
 			}
-			if m.To != "" && m.To != id {
+			if m.To != "" && m.To != to.ID {
 				continue
 			}
-			e := &Env{Msg: m, To: id, Valid: true}
+			if s.Route != nil && !s.Route(n, to) {
+				continue
+			}
+			e := &Env{Msg: m, To: to.Label, Valid: true}
 			envs := []*Env{e}
 			if s.OnEmit != nil {
 				envs = s.OnEmit(n.ID, e)
@@ -418,7 +462,7 @@ func (s *Sim) Deliver(e *Env) Obs {
 		return Obs{}
 	}
 	if s.det != nil {
-		s.det.setParty(string(n.ID))
+		s.det.setParty(string(n.Label))
 	}
 	n.Events = append(n.Events, sx.List(sx.Int(0), s.msgSx(e.Msg, e.Valid)))
 	msgs, pan, hung := s.call(n, func() { n.H.Accept(e.Msg) })
